@@ -31,13 +31,14 @@ type spec struct {
 	n        int    // sessions
 	per      int    // datagrams per session
 	garbage  bool
-	rebind   bool // session 0 changes its source port before its last datagram
-	sameIP   bool // all clients share one IP address and differ only in the source port
-	oversize bool // each reply is preceded by a datagram the downlink must skip (too large for the client)
+	rebind   bool   // session 0 changes its source port before its last datagram
+	sameIP   bool   // all clients share one IP address and differ only in the source port
+	oversize bool   // each reply is preceded by a datagram the downlink must skip (too large for the client)
+	client   string // outgoing client of the relay: direct (real targets), none or ss2022 (harness upstream proxy)
 }
 
 func (s spec) String() string {
-	return fmt.Sprintf("server=%s;batch=%s;targets=%s;n=%d;per=%d;garbage=%v;rebind=%v;sameip=%v;oversize=%v", s.server, s.batch, s.targets, s.n, s.per, s.garbage, s.rebind, s.sameIP, s.oversize)
+	return fmt.Sprintf("server=%s;batch=%s;targets=%s;n=%d;per=%d;garbage=%v;rebind=%v;sameip=%v;oversize=%v;client=%s", s.server, s.batch, s.targets, s.n, s.per, s.garbage, s.rebind, s.sameIP, s.oversize, s.client)
 }
 
 func parse(p string) spec {
@@ -63,6 +64,8 @@ func parse(p string) spec {
 			s.sameIP = v == "true"
 		case "oversize":
 			s.oversize = v == "true"
+		case "client":
+			s.client = v
 		}
 	}
 	return s
@@ -89,10 +92,12 @@ func scenario(param string) vsched.Scenario {
 			env                    *udpenv.Env
 			wantT                  = make([]int, sp.n) // target index of session i
 			mustNotArrive          = map[string]bool{}
+			upstream               *udpenv.UpstreamProxy
+			wantTargetStr          = make([]string, sp.n)
 		)
 		body := func() {
 			var err error
-			env, err = udpenv.New(udpenv.Spec{Server: sp.server, Batch: sp.batch})
+			env, err = udpenv.New(udpenv.Spec{Server: sp.server, Batch: sp.batch, Client: sp.client})
 			if err != nil {
 				buildErr = err
 				return
@@ -113,8 +118,17 @@ func scenario(param string) vsched.Scenario {
 				return
 			}
 			var tg, cg vsched.Group
-			for _, t := range targets {
-				tg.Go(t.Serve)
+			if sp.client != "direct" {
+				// the relay's outgoing client talks to a harness upstream proxy; the "targets" are only names
+				for _, t := range targets {
+					t.Close()
+				}
+				upstream = env.NewUpstream()
+				tg.Go(upstream.Serve)
+			} else {
+				for _, t := range targets {
+					tg.Go(t.Serve)
+				}
 			}
 			if sp.garbage {
 				// garbage from an address that never sends anything valid
@@ -143,6 +157,7 @@ func scenario(param string) vsched.Scenario {
 				} else {
 					target = conn.AddrFromIPPort(targets[ti].Addr)
 				}
+				wantTargetStr[i] = target.String()
 				cg.Go(func() {
 					c := env.NewClient(i, 0)
 					if sp.sameIP {
@@ -181,8 +196,12 @@ func scenario(param string) vsched.Scenario {
 			cg.Wait()
 			env.Stop()
 			stopped = true
-			for _, t := range targets {
-				t.Close()
+			if upstream != nil {
+				upstream.Close()
+			} else {
+				for _, t := range targets {
+					t.Close()
+				}
 			}
 			tg.Wait()
 			leak = vudp.Finish()
@@ -191,6 +210,11 @@ func scenario(param string) vsched.Scenario {
 			var tp []string
 			for _, t := range targets {
 				tp = append(tp, t.Payloads())
+			}
+			if upstream != nil {
+				for _, g := range upstream.Got {
+					tp = append(tp, fmt.Sprintf("up:%q>%s", g.Payload, g.Target))
+				}
 			}
 			obs := fmt.Sprintf("targets=%v replies=%q garbageTable=%d stopped=%v leak=%v", tp, replies, tableAfterGarbage, stopped, leak.RelayLeaked)
 			if env != nil {
@@ -216,6 +240,57 @@ func scenario(param string) vsched.Scenario {
 				if relaySocksAfterGarbage != 1 {
 					return obs, fmt.Sprintf("datagrams that fail to parse/authenticate left %d relay sockets open (1 listener expected)", relaySocksAfterGarbage)
 				}
+			}
+			if upstream != nil {
+				seen := map[string]int{}
+				for _, g := range upstream.Got {
+					seen[g.Payload]++
+					if mustNotArrive[g.Payload] {
+						return obs, fmt.Sprintf("datagram %q, addressed to a name that does not resolve, was sent to the upstream proxy", g.Payload)
+					}
+					var si, k int
+					if _, err := fmt.Sscanf(g.Payload, "s%d#%d", &si, &k); err != nil || si >= sp.n {
+						return obs, fmt.Sprintf("upstream proxy received a datagram nobody sent: %q", g.Payload)
+					}
+					if g.Target != wantTargetStr[si] {
+						return obs, fmt.Sprintf("datagram %q of session %d left the relay with destination %s inside, the client addressed it to %s", g.Payload, si, g.Target, wantTargetStr[si])
+					}
+				}
+				for i := 0; i < sp.n; i++ {
+					want := map[string]bool{}
+					for _, p := range sent[i] {
+						if seen[p] != 1 {
+							return obs, fmt.Sprintf("datagram %q of session %d reached the upstream proxy %d times", p, i, seen[p])
+						}
+						want["echo:"+p] = true
+					}
+					for _, r := range replies[i] {
+						if r.Err != "" {
+							return obs, fmt.Sprintf("session %d did not get its reply: %s", i, r.Err)
+						}
+						if !want[r.Payload] {
+							return obs, fmt.Sprintf("session %d received %q, which is not a reply to it", i, r.Payload)
+						}
+						delete(want, r.Payload)
+						wantSrc := wantTargetStr[i]
+						if !strings.HasPrefix(wantSrc, "127.") {
+							wantSrc = "203.0.113.9:7000" // the upstream's claimed source for domain destinations
+						}
+						if sp.server != "direct" && r.Src != wantSrc {
+							return obs, fmt.Sprintf("session %d: reply carries source %s, the upstream attached %s", i, r.Src, wantSrc)
+						}
+					}
+					if len(want) > 0 {
+						return obs, fmt.Sprintf("session %d is missing %d replies", i, len(want))
+					}
+				}
+				if !stopped {
+					return obs, "Stop did not return"
+				}
+				if len(leak.RelayLeaked) > 0 {
+					return obs, fmt.Sprintf("relay sockets still open after Stop: %v", leak.RelayLeaked)
+				}
+				return obs, ""
 			}
 			// every datagram seen by a target belongs to a session addressed to it; everything sent arrives once
 			for ti, t := range targets {
@@ -310,26 +385,40 @@ func family(c *harness.Check) []string {
 				tk = []string{"ip"}
 			}
 			for _, t := range tk {
-				out = append(out, spec{sv, b, t, 2, 1, false, false, false, false}.String())
+				out = append(out, spec{sv, b, t, 2, 1, false, false, false, false, "direct"}.String())
 				if c.Thorough() || t == "domain" {
-					out = append(out, spec{sv, b, t, 2, 2, false, false, false, false}.String())
-					out = append(out, spec{sv, b, t, 3, 1, false, false, false, false}.String())
+					out = append(out, spec{sv, b, t, 2, 2, false, false, false, false, "direct"}.String())
+					out = append(out, spec{sv, b, t, 3, 1, false, false, false, false, "direct"}.String())
 				}
 			}
 			if sv != "direct" {
 				// a tunnel server has no framing: every datagram is a valid payload for the fixed target
-				out = append(out, spec{sv, b, "ip", 1, 2, true, false, false, false}.String())
+				out = append(out, spec{sv, b, "ip", 1, 2, true, false, false, false, "direct"}.String())
 				// a datagram the downlink must skip arrives right before each genuine reply (same receive batch)
-				out = append(out, spec{sv, b, "ip", 1, 2, false, false, false, true}.String())
+				out = append(out, spec{sv, b, "ip", 1, 2, false, false, false, true, "direct"}.String())
 				// a resolvable domain first, then datagrams to a name whose lookup fails
-				out = append(out, spec{sv, b, "domainfail", 1, 3, false, false, false, false}.String())
-				out = append(out, spec{sv, b, "domainfail", 2, 2, false, false, false, false}.String())
+				out = append(out, spec{sv, b, "domainfail", 1, 3, false, false, false, false, "direct"}.String())
+				out = append(out, spec{sv, b, "domainfail", 2, 2, false, false, false, false, "direct"}.String())
 				// two clients behind one IP address (a NAT): sessions must be told apart by port
-				out = append(out, spec{sv, b, "ip", 2, 2, false, false, true, false}.String())
+				out = append(out, spec{sv, b, "ip", 2, 2, false, false, true, false, "direct"}.String())
 			}
 			if sv == "ss2022" {
-				out = append(out, spec{sv, b, "ip", 1, 2, false, true, false, false}.String())
-				out = append(out, spec{sv, b, "mixed", 2, 2, false, true, false, false}.String())
+				out = append(out, spec{sv, b, "ip", 1, 2, false, true, false, false, "direct"}.String())
+				out = append(out, spec{sv, b, "mixed", 2, 2, false, true, false, false, "direct"}.String())
+			}
+		}
+	}
+	// outgoing clients other than direct: the datagram must leave towards the upstream proxy with T inside
+	for _, sv := range []string{"none", "socks5", "ss2022"} {
+		for _, cl := range []string{"none", "ss2022"} {
+			for _, b := range []string{"no", "sendmmsg"} {
+				if !c.Thorough() && b == "sendmmsg" && sv != "ss2022" {
+					continue
+				}
+				for _, t := range []string{"ip", "domain"} {
+					out = append(out, spec{sv, b, t, 2, 1, false, false, false, false, cl}.String())
+				}
+				out = append(out, spec{sv, b, "mixed", 2, 2, false, false, false, false, cl}.String())
 			}
 		}
 	}
